@@ -448,6 +448,44 @@ theorem spec_provRelease (cf : Cfg) (q p : Bool) (con : Nat) (s : St) (hG : G cf
     · intro _ s' h; exact h
     · intro _ s' h; exact h
 
+/-- `Database.call_on_connect`: only `commit()` calls on the new connection; nothing the protocol depends on changes -/
+theorem spec_callOnConnect (cf : Cfg) (q p : Bool) (con : Nat) (n : Nat) : ∀ (s : St), G cf q p s → s.dirty = false →
+    wp (callOnConnect cf con n)
+      (fun _ s' => G cf q p s' ∧ s'.poolCon = s.poolCon ∧ s'.dirty = false ∧ PoolFr s s')
+      (fun _ s' => (G cf q p s' ∧ s'.poolCon = s.poolCon ∧ s'.dirty = false ∧ PoolFr s s') ∧ q = false) s := by
+  induction n with
+  | zero => intro s hG hd; simp [callOnConnect, hG, hd, PoolFr]
+  | succ n ih =>
+    intro s hG hd
+    obtain ⟨hA, hW, hF⟩ := hG
+    simp only [callOnConnect, conCommit, wp_bind, wp_dbcall, wp_modS]
+    rcases FlF_cases hF with ⟨hf, hq, hF1⟩ | ⟨hf, hF1⟩
+    · subst hq; simp_all [G, PoolFr]
+    · simp only [hf, Bool.false_eq_true, if_false]
+      refine wp_mono (ih _ ⟨hA, by simpa using hW, hF1⟩ rfl) ?_ ?_
+      · intro _ s' h; exact ⟨h.1, h.2.1, h.2.2.1, h.2.2.2⟩
+      · intro _ s' h; exact ⟨⟨h.1.1, h.1.2.1, h.1.2.2.1, h.1.2.2.2⟩, h.2⟩
+
+theorem spec_cacheConnectTail (cf : Cfg) (q p : Bool) (con : Nat) (s1 : St) (hG1 : G cf q p s1) (hpc1 : s1.poolCon = some con)
+    (hconn : s1.cache.conn = none) (hin : s1.cache.inTx = false) (hl : s1.lock = false) (hd : s1.dirty = false)
+    (hddl : cf.ddl = true → s1.cache.immediate = true) :
+    wp (cacheConnectTail cf con)
+      (fun con' s' => con' = con ∧ G cf q p s' ∧ s'.cache.conn = some con ∧ s'.poolCon = some con ∧ s'.cache.inTx = s1.cache.immediate ∧
+                     s'.lock = s1.cache.immediate ∧ s'.cache.immediate = s1.cache.immediate ∧
+                     s'.cache.pending = s1.cache.pending ∧ s'.hasCache = s1.hasCache)
+      (fun _ s' => (G cf q p s' ∧ s'.cache.conn = none ∧ s'.cache.inTx = false ∧ s'.lock = false ∧ s'.dirty = false ∧
+                    s'.cache.immediate = s1.cache.immediate ∧ s'.cache.pending = s1.cache.pending ∧
+                    s'.hasCache = s1.hasCache) ∧ q = false) s1 := by
+  simp only [cacheConnectTail, wp_bind, wp_tryCatch, wp_raise, wp_modC, wp_pure]
+  refine wp_mono (spec_setTransactionMode cf q p con s1 hG1 hin hl hddl) ?_ ?_
+  · mono_intro
+    simp_all [G]
+  · intro _ s2 h
+    obtain ⟨⟨hG2, hin2, hl2, hcn2, him2, hp2, hfr2⟩, hq⟩ := h
+    refine wp_mono (spec_provDrop cf q p con s2 hG2 (by rw [hl2, hin2]) (by simp_all [Fr3])) ?_ ?_
+    · mono_intro; simp_all [Fr3, G]
+    · mono_intro; simp_all [Fr3, G]
+
 theorem spec_cacheConnect (cf : Cfg) (q p : Bool) (s : St) (hG : G cf q p s) (hconn : s.cache.conn = none)
     (hin : s.cache.inTx = false) (hl : s.lock = false) (hd : s.dirty = false)
     (hddl : cf.ddl = true → s.cache.immediate = true) :
@@ -458,21 +496,37 @@ theorem spec_cacheConnect (cf : Cfg) (q p : Bool) (s : St) (hG : G cf q p s) (hc
       (fun _ s' => (G cf q p s' ∧ s'.cache.conn = none ∧ s'.cache.inTx = false ∧ s'.lock = false ∧ s'.dirty = false ∧
                     s'.cache.immediate = s.cache.immediate ∧ s'.cache.pending = s.cache.pending ∧
                     s'.hasCache = s.hasCache) ∧ q = false) s := by
-  simp only [cacheConnect, baseConnect, wp_bind, wp_getS, wp_assertM, wp_wrap, wp_ite, wp_tryCatch, wp_raise, wp_modC,
-    wp_pure, hconn, hin]
+  simp only [cacheConnect, baseConnect, wp_bind, wp_getS, wp_assertM, wp_wrap, wp_ite, wp_raise, wp_pure, hconn, hin]
   simp only [decide_true, if_true, Bool.false_eq_true, if_false]
+  have tail : ∀ (con : Nat) (s2 : St), G cf q p s2 → s2.poolCon = some con → s2.dirty = false → PoolFr s s2 →
+      wp (cacheConnectTail cf con)
+        (fun con s' => G cf q p s' ∧ s'.cache.conn = some con ∧ s'.poolCon = some con ∧ s'.cache.inTx = s.cache.immediate ∧
+                       s'.lock = s.cache.immediate ∧ s'.cache.immediate = s.cache.immediate ∧
+                       s'.cache.pending = s.cache.pending ∧ s'.hasCache = s.hasCache)
+        (fun _ s' => (G cf q p s' ∧ s'.cache.conn = none ∧ s'.cache.inTx = false ∧ s'.lock = false ∧ s'.dirty = false ∧
+                      s'.cache.immediate = s.cache.immediate ∧ s'.cache.pending = s.cache.pending ∧
+                      s'.hasCache = s.hasCache) ∧ q = false) s2 := by
+    intro con s2 hG2 hpc2 hd2 ⟨hl2, hc2, hh2⟩
+    refine wp_mono (spec_cacheConnectTail cf q p con s2 hG2 hpc2 (by rw [hc2, hconn]) (by rw [hc2, hin]) (by rw [hl2, hl]) hd2
+      (by rw [hc2]; exact hddl)) ?_ ?_
+    · rintro con' s' ⟨rfl, h⟩
+      simpa [hc2, hh2] using h
+    · rintro _ s' ⟨h, hq⟩
+      exact ⟨by simpa [hc2, hh2] using h, hq⟩
   refine wp_mono (spec_poolConnect cf q p s hG) ?_ ?_
-  · rintro ⟨con, isNew⟩ s1 ⟨hG1, hpc1, hd1, hl1, hc1, hh1⟩
-    simp only
+  · rintro ⟨con, isNew⟩ s1 ⟨hG1, hpc1, hd1, hfr1⟩
     have hd1' : s1.dirty = false := by cases h : s1.dirty <;> simp_all
-    refine wp_mono (spec_setTransactionMode cf q p con s1 hG1 (by rw [hc1, hin]) (by rw [hl1, hl]) (by rw [hc1]; exact hddl)) ?_ ?_
-    · mono_intro
-      simp_all [G]
-    · intro _ s2 h
-      obtain ⟨⟨hG2, hin2, hl2, hcn2, him2, hp2, hfr2⟩, hq⟩ := h
-      refine wp_mono (spec_provDrop cf q p con s2 hG2 (by rw [hl2, hin2]) (by simp_all [Fr3])) ?_ ?_
-      · mono_intro; simp_all [Fr3, G]
-      · mono_intro; simp_all [Fr3, G]
+    simp only
+    cases isNew with
+    | false => simpa using tail con s1 hG1 hpc1 hd1' hfr1
+    | true =>
+      simp only [if_true]
+      refine wp_mono (spec_callOnConnect cf q p con cf.onConnect s1 hG1 hd1') ?_ ?_
+      · rintro _ s2 ⟨hG2, hpc2, hd2, hl2, hc2, hh2⟩
+        exact tail con s2 hG2 (by rw [hpc2, hpc1]) hd2 ⟨by rw [hl2, hfr1.1], by rw [hc2, hfr1.2.1], by rw [hh2, hfr1.2.2]⟩
+      · rintro _ s2 ⟨⟨hG2, hpc2, hd2, hl2, hc2, hh2⟩, hq⟩
+        obtain ⟨h1, h2, h3⟩ := hfr1
+        refine ⟨⟨hG2, ?_, ?_, ?_, hd2, ?_, ?_, ?_⟩, hq⟩ <;> simp_all
   · mono_intro
     rename_i s1 _ hd1 _ _ _ _
     have hd1' : s1.dirty = false := by cases h : s1.dirty <;> simp_all
@@ -943,5 +997,37 @@ theorem spec_dbSession (cf : Cfg) (q p : Bool) (hwf : cf.WF) (prog : List (Op ×
     refine wp_mono (spec_exitSession cf q p _ s1 hbody.1) ?_ ?_
     · intro _ s2 h; exact h
     · intro _ s2 h; exact ⟨h.1, h.2.1, hbody.2⟩
+
+
+/-- `Database.disconnect()`: the pooled connection is closed (exactly once), a left-over cache is rolled back first -/
+theorem spec_dbDisconnect (cf : Cfg) (q p : Bool) (s : St) (hI : Inv cf q p s) :
+    wp (dbDisconnect cf)
+      (fun _ s' => Inv cf q p s' ∧ s'.hasCache = false ∧ s'.poolCon = none)
+      (fun _ s' => (Inv cf q p s' ∧ s'.hasCache = false) ∧ q = false) s := by
+  have pd : ∀ (s1 : St), Inv cf q p s1 → s1.hasCache = false →
+      wp (wrap (poolDisconnect cf)) (fun _ s' => Inv cf q p s' ∧ s'.hasCache = false ∧ s'.poolCon = none)
+        (fun _ s' => (Inv cf q p s' ∧ s'.hasCache = false) ∧ q = false) s1 := by
+    intro s1 hI1 hh1
+    obtain ⟨⟨hA, hW, hF⟩, hl, htx, hcp, hdead, hdirty, hddl⟩ := hI1
+    have hc := hdead hh1
+    have hin : s1.cache.inTx = false := by cases h : s1.cache.inTx <;> simp_all
+    simp only [poolDisconnect, conClose, wp_wrap, wp_bind, wp_getS, wp_modS, wp_dbcall, wp_pure]
+    cases hpc : s1.poolCon with
+    | none => simp_all [Inv, CInv, G]
+    | some con =>
+      rw [hpc] at hA hF
+      have hA' := AccF_drop hA
+      simp only [wp_bind, wp_modS, wp_dbcall]
+      rcases FlF_cases (FlF_pc none hF (by simp)) with ⟨hf, hq, hF1⟩ | ⟨hf, hF1⟩
+      · subst hq; simp_all [Inv, CInv, G]
+      · simp_all [Inv, CInv, G]
+  simp only [dbDisconnect, wp_bind, wp_getS, wp_ite, wp_pure]
+  cases hh : s.hasCache with
+  | false => simpa using pd s hI hh
+  | true =>
+    simp only [if_true]
+    refine wp_mono (spec_cacheClose cf q p true s hI (by simp)) ?_ ?_
+    · rintro _ s1 ⟨hI1, hh1⟩; exact pd s1 hI1 hh1
+    · intro _ s1 h; exact h
 
 end PonyVerif.Model.ConnLock
